@@ -265,6 +265,37 @@ Proof.
   - apply Hc_clear_inv. - apply Hn_clear_inv_lif. - intros; eapply Hc_par; eauto. - apply Hn_par_lif.
 Qed.
 
+
+(* the general replay statement for layers with ALIF groups (adaptations learned during forward are carried over) *)
+Theorem c17_serial_clear_then_run S0 ops S outs xk ops2 :
+  LIc (s_layer S0) -> Forall (sop_ok V CS NS unit nkw XK (CI N) (NI N)) ops -> keepk xk ->
+  run SStep S0 ops = Ok (S, outs) ->
+  run SStep S (SClear true xk :: ops2) = ('(S2, o2) <- run SStep (SFresh S) ops2 ;; Ok (S2, None :: o2)).
+Proof.
+  intros. eapply (serial_clear_then_run V CS NS unit nkw XK tt nkw0 (dense_step N) (neuron_step N)
+                    (dense_clear N) (neuron_clear N) (dense_fresh N) (neuron_fresh N) (CI N) (NI N) keepk); eauto.
+  - apply Hc_clear. - apply Hn_clear. - apply Hc_step. - apply Hn_step. - apply Hc_clear_inv. - apply Hn_clear_inv.
+Qed.
+Theorem c17_biclique_clear_then_run B0 ops Bq outs xk ops2 :
+  LIc (b_layer B0) -> Forall (bop_ok V CS NS unit nkw XK (CI N) (NI N)) ops -> keepk xk ->
+  run BStep B0 ops = Ok (Bq, outs) ->
+  run BStep Bq (BClear true xk :: ops2) = ('(B2, o2) <- run BStep (BFresh Bq) ops2 ;; Ok (B2, None :: o2)).
+Proof.
+  intros. eapply (biclique_clear_then_run V CS NS unit nkw XK tt nkw0 (dense_step N) (neuron_step N)
+                    (dense_clear N) (neuron_clear N) (dense_fresh N) (neuron_fresh N) (CI N) (NI N) keepk); eauto.
+  - apply Hc_clear. - apply Hn_clear. - apply Hc_step. - apply Hn_step. - apply Hc_clear_inv. - apply Hn_clear_inv.
+Qed.
+Theorem c17_recurrent_clear_then_run R0 ops R outs xk ops2 :
+  LIc (r_layer R0) -> Forall (rop_ok2 V CS NS unit nkw XK (CI N) (NI N)) ops -> keepk xk ->
+  run RStep R0 ops = Ok (R, outs) ->
+  run RStep R (RClear true true xk :: ops2) = ('(R2, o2) <- run RStep (RFresh R) ops2 ;; Ok (R2, None :: o2)).
+Proof.
+  intros. eapply (recurrent_clear_then_run V CS NS unit nkw XK tt nkw0 (dense_step N) (neuron_step N)
+                    (neuron_spike N) (dense_clear N) (neuron_clear N) (tzeros_like N) (tadd N)
+                    (dense_fresh N) (neuron_fresh N) (CI N) (NI N) keepk); eauto.
+  - apply Hc_clear. - apply Hn_clear. - apply Hc_step. - apply Hn_step. - apply Hc_clear_inv. - apply Hn_clear_inv.
+Qed.
+
 (* the layers the constructors build from freshly constructed components satisfy the premises above *)
 Theorem c17_serial_new_fresh c n tr cn nn S0 :
   serial_new V CS NS compat (dense_fresh N c) (neuron_fresh N n) tr cn nn = Ok S0 ->
@@ -276,6 +307,42 @@ Proof.
     + constructor; [apply dense_fresh_CI|constructor].
     + constructor; [apply neuron_fresh_NI; auto|constructor].
   - reflexivity.
+Qed.
+
+
+Theorem c17_biclique_new_fresh cs ns combine B0 :
+  biclique_new V CS NS compat cs ns combine = Ok B0 ->
+  Forall (fun p => exists c, snd (fst p) = dense_fresh N c) cs ->
+  Forall (fun p => exists n, snd (fst p) = neuron_fresh N n /\
+                             (n_acfg N n <> None -> length (n_adapt N n) = nsize N n)) ns ->
+  LIc (b_layer B0) /\ BFresh B0 = B0 /\ b_wf V CS NS B0.
+Proof.
+  intros H Hc Hn. pose proof (biclique_new_wf _ _ _ _ _ _ _ _ H) as Hw.
+  destruct (biclique_new_layer _ _ _ _ _ _ _ _ H) as [E1 E2].
+  split; [|split; auto].
+  - split.
+    + rewrite E1, Forall_map. eapply Forall_impl; [|exact Hc]. simpl. intros p [c ->]. apply dense_fresh_CI.
+    + rewrite E2, Forall_map. eapply Forall_impl; [|exact Hn]. simpl. intros p (n & -> & Ha). apply neuron_fresh_NI; auto.
+  - unfold BFresh, biclique_fresh, layer_fresh. destruct B0 as [[cl nl] post pre cmb]. simpl in *. f_equal. f_equal.
+    + subst cl. rewrite map_map. apply map_ext_Forall with (P := fun p => exists c, snd (fst p) = dense_fresh N c); auto.
+      intros p [c Hp]. unfold on_snd; simpl. rewrite Hp. reflexivity.
+    + subst nl. rewrite map_map.
+      apply map_ext_Forall with (P := fun p => exists n, snd (fst p) = neuron_fresh N n /\
+                                   (n_acfg N n <> None -> length (n_adapt N n) = nsize N n)); auto.
+      intros p (n & Hp & _). unfold on_snd; simpl. rewrite Hp. reflexivity.
+Qed.
+Theorem c17_recurrent_new_fresh cff clat cfb nff nfb tff tlat tfb ilat ifb ffc latc fbc ffn fbn tf R0 :
+  recurrent_new V CS NS compat (dense_fresh N cff) (dense_fresh N clat) (dense_fresh N cfb)
+    (neuron_fresh N nff) (neuron_fresh N nfb) tff tlat tfb ilat ifb ffc latc fbc ffn fbn tf = Ok R0 ->
+  (n_acfg N nff <> None -> length (n_adapt N nff) = nsize N nff) ->
+  (n_acfg N nfb <> None -> length (n_adapt N nfb) = nsize N nfb) ->
+  LIc (r_layer R0) /\ RFresh R0 = R0 /\ r_names_ok V CS NS R0.
+Proof.
+  intros H Ha Hb. apply recurrent_new_of in H. destruct H as (Hn & E & _).
+  rewrite E. split; [|split; auto].
+  - split; simpl.
+    + repeat (constructor; [apply dense_fresh_CI|]). constructor.
+    + constructor; [apply neuron_fresh_NI; auto|]. constructor; [apply neuron_fresh_NI; auto|]. constructor.
 Qed.
 
 (* output_shapes: every output of every layer kind has exactly the batched shape (B :: shape) of its neuron group *)
@@ -303,3 +370,17 @@ Theorem connection_clear_is_fresh (N : Num) xk c : CI N c -> dense_clear N xk c 
 Proof. apply Hc_clear. Qed.
 Theorem neuron_clear_is_fresh (N : Num) xk n : keepk xk -> NI N n -> neuron_clear N xk n = neuron_fresh N n.
 Proof. apply Hn_clear. Qed.
+
+(* learned parameters and adaptations are kept by clear(): weights, biases, delays always; adaptations unless
+   keep_adaptations=False was passed, in which case they are zeroed (ALIF.clear) *)
+Theorem clear_keeps_learned (N : Num) xk c n :
+  d_W N (dense_clear N xk c) = d_W N c /\ d_bias N (dense_clear N xk c) = d_bias N c /\
+  d_delay N (dense_clear N xk c) = d_delay N c /\
+  (keepk xk -> n_adapt N (neuron_clear N xk n) = n_adapt N n) /\
+  (n_acfg N n <> None -> n_adapt N (neuron_clear N (Some false) n) = map (map (fun _ => zero N)) (n_adapt N n)).
+Proof.
+  repeat split; auto.
+  - intros Hk. unfold neuron_clear; simpl. destruct (n_acfg N n); auto. destruct xk as [[|]|]; auto.
+    exfalso; apply Hk; auto.
+  - intros Hn. unfold neuron_clear; simpl. destruct (n_acfg N n); auto. congruence.
+Qed.
